@@ -1,4 +1,463 @@
-/-! Line-protocol driver for property C05 (stub until the model exists). -/
+import CprocVerif.Model.Types
+import CprocVerif.Spec.Conv
+
+/-! Line-protocol driver for property C05 (model of `type.c`/`targ.c`/the typing half of `expr.c`
+and the executable C11 spec predicates of `Spec/Conv.lean`).
+
+One output line per input line.  State: the selected target (initially `x86_64-sysv`).
+
+Types (prefix notation, space separated tokens):
+  `bool char schar uchar short ushort int uint long ulong llong ullong float double ldouble`,
+  `e<id>:<base>` (enum type object `id` over `<base>`), `void`, `nullptr`, `s<id>`, `u<id>`,
+  `p<q> T` (pointer; q = qualifier mask of the referenced type: 1 const, 2 restrict, 4 volatile),
+  `a<q> <len> <pq> T` (len = `-` incomplete, `*` VLA, or a number; pq = qualifiers inside `[]`),
+  `f<q> <vararg 0|1> <n> R P1 … Pn`.
+Widths: `-` (not a bit-field) or a number.
+
+Model ops:
+  `targ <name>`                          → `ok` | `unknown-target`
+  `promote <aty> <w>`                    → aty
+  `commonreal <aty> <w> <aty> <w>`       → aty | `fatal`
+  `hasint <aty> <v> <sign 0|1>`          → 0 | 1
+  `compat T | T`                         → 0 | 1
+  `adjust <q> T`                         → `<T> <q>` | `assert`
+  `inttype <v> <decimal 0|1> <sfx|->`    → `ty <basic>` | `badsuffix` | `notype`
+  `enumbase <min> <max>`                 → basic | `none`
+  `typeof E`                             → `<T> q=<q> lv=<0|1> w=<w> nc=<0|1> ok=<0|1>` | `error`
+        (`ok` = every node of E satisfies the Spec predicate of its operator, given the model's
+        operands for the sub-expressions)
+Spec ops (prefix `S`):
+  `Spromote <aty> <w>` → aty;  `Susual <aty> <w> <aty> <w> <aty>` → 0|1;  `Srange <aty> <v> <sign>` → 0|1
+  `Sliteral <v> <decimal> <sfx|->` → basic | `notype` | `badsuffix`;  `Scompat T | T` → 0|1
+  `Sbinok <op> <Lw> <Lnc> T | <Rw> <Rnc> T | T` → 0|1;   `Scondok <Lw> <Lnc> T | <Rw> <Rnc> T | T` → 0|1
+  `Schar <prefix>` → basic;  `Starget` → `<charsigned> <wchar>`
+Expressions E: `var <q> T`, `rv T`, `bf <q> <w> <aty>` (bit-field lvalue), `int <v> <dec> <sfx|->`,
+  `flt <sfx|->`, `chr <none|L|u|U|u8>`, `un <op> E`, `bin <op> E E`, `cond E E E`, `cast T E`,
+  `sizeoft T`, `asg E E`, `opasg <op> E E`, `comma E E`, `call <n> E E1 … En`,
+  `mem <arrow 0|1> <mq> <bits|-> T E`, `idx E E`.
+-/
+
+open CprocVerif.Types
+open CprocVerif
+
+abbrev Toks := List String
+
+def basicNames : List (String × Basic) :=
+  [("bool", .bool), ("char", .char), ("schar", .schar), ("uchar", .uchar), ("short", .short),
+   ("ushort", .ushort), ("int", .int), ("uint", .uint), ("long", .long), ("ulong", .ulong),
+   ("llong", .llong), ("ullong", .ullong), ("float", .float), ("double", .double), ("ldouble", .ldouble)]
+
+def basicName (b : Basic) : String :=
+  match basicNames.find? (·.2 == b) with
+  | some p => p.1
+  | none => "?"
+
+def parseBasic (s : String) : Option Basic := basicNames.lookup s
+
+def parseATy (s : String) : Option ATy :=
+  match parseBasic s with
+  | some b => some (.basic b)
+  | none =>
+    if s.startsWith "e" then
+      match (s.drop 1).toString.splitOn ":" with
+      | [i, b] =>
+        match i.toNat?, parseBasic b with
+        | some i, some b => some (.enum i b)
+        | _, _ => none
+      | _ => none
+    else none
+
+def showATy : ATy → String
+  | .basic b => basicName b
+  | .enum i b => s!"e{i}:{basicName b}"
+
+def parseW (s : String) : Option (Option Nat) :=
+  if s == "-" then some none else s.toNat?.map some
+
+def showW : Option Nat → String
+  | none => "-"
+  | some n => toString n
+
+def parseBool (s : String) : Option Bool :=
+  if s == "1" then some true else if s == "0" then some false else none
+
+def b01 (b : Bool) : String := if b then "1" else "0"
+
+def suffixArg (s : String) : String := if s == "-" then "" else s
+
+partial def parseTy : Toks → Option (Ty × Toks)
+  | [] => none
+  | t :: rest =>
+    if t == "void" then some (.void, rest)
+    else if t == "nullptr" then some (.nullptr, rest)
+    else match parseATy t with
+    | some a => some (.arith a, rest)
+    | none =>
+      let c := t.take 1 |>.toString
+      let n := (t.drop 1).toString
+      if c == "s" then n.toNat?.map (fun i => (.struct i, rest))
+      else if c == "u" then n.toNat?.map (fun i => (.union i, rest))
+      else if c == "p" then
+        match n.toNat?, parseTy rest with
+        | some q, some (b, r) => some (.ptr (Qual.ofNat q) b, r)
+        | _, _ => none
+      else if c == "a" then
+        match n.toNat?, rest with
+        | some q, len :: pq :: r =>
+          let l : Option ArrLen := if len == "-" then some .incomplete else if len == "*" then some .vla
+            else len.toNat?.map .const
+          match l, pq.toNat?, parseTy r with
+          | some l, some pq, some (b, r') => some (.arr (Qual.ofNat q) l (Qual.ofNat pq) b, r')
+          | _, _, _ => none
+        | _, _ => none
+      else if c == "f" then
+        match n.toNat?, rest with
+        | some q, v :: cnt :: r =>
+          match parseBool v, cnt.toNat?, parseTy r with
+          | some v, some cnt, some (ret, r') =>
+            let rec params (k : Nat) (ts : Toks) (acc : List Ty) : Option (List Ty × Toks) :=
+              match k with
+              | 0 => some (acc.reverse, ts)
+              | k + 1 =>
+                match parseTy ts with
+                | some (p, ts') => params k ts' (p :: acc)
+                | none => none
+            match params cnt r' [] with
+            | some (ps, r'') => some (.func (Qual.ofNat q) ret ps v, r'')
+            | none => none
+          | _, _, _ => none
+        | _, _ => none
+      else none
+
+partial def showTy : Ty → String
+  | .void => "void"
+  | .nullptr => "nullptr"
+  | .arith a => showATy a
+  | .struct i => s!"s{i}"
+  | .union i => s!"u{i}"
+  | .ptr q b => s!"p{q.toNat} {showTy b}"
+  | .arr q l pq b =>
+    let ls := match l with | .incomplete => "-" | .vla => "*" | .const n => toString n
+    s!"a{q.toNat} {ls} {pq.toNat} {showTy b}"
+  | .func q r ps v =>
+    let pss := ps.foldl (fun acc p => acc ++ " " ++ showTy p) ""
+    s!"f{q.toNat} {b01 v} {ps.length} {showTy r}{pss}"
+
+def binOps : List (String × BinOp) :=
+  [("lor", .lor), ("land", .land), ("eql", .eql), ("neq", .neq), ("less", .less), ("greater", .greater),
+   ("leq", .leq), ("geq", .geq), ("bor", .bor), ("xor", .xor), ("band", .band), ("add", .add),
+   ("sub", .sub), ("mod", .mod), ("mul", .mul), ("div", .div), ("shl", .shl), ("shr", .shr)]
+
+def unOps : List (String × UnOp) :=
+  [("addr", .addr), ("deref", .deref), ("plus", .plus), ("minus", .minus), ("bnot", .bnot), ("lnot", .lnot),
+   ("sizeof", .sizeofE), ("alignof", .alignofE), ("preinc", .preinc), ("predec", .predec),
+   ("postinc", .postinc), ("postdec", .postdec)]
+
+def charPrefixes : List (String × CharPrefix) :=
+  [("none", .none), ("L", .L), ("u", .u), ("U", .U), ("u8", .u8)]
+
+partial def parseExpr : Toks → Option (Expr × Toks)
+  | [] => none
+  | t :: rest =>
+    if t == "var" then
+      match rest with
+      | q :: r =>
+        match q.toNat?, parseTy r with
+        | some q, some (ty, r') => some (.var ty (Qual.ofNat q), r')
+        | _, _ => none
+      | _ => none
+    else if t == "rv" then (parseTy rest).map (fun p => (.rv p.1, p.2))
+    else if t == "bf" then
+      -- a bit-field lvalue: member `w`-bit of an (unqualified or q-qualified) struct object
+      match rest with
+      | q :: w :: a :: r =>
+        match q.toNat?, w.toNat?, parseATy a with
+        | some q, some w, some a =>
+          some (.member false (.var (.struct 0) (Qual.ofNat q)) (.arith a) Qual.none (some w), r)
+        | _, _, _ => none
+      | _ => none
+    else if t == "int" then
+      match rest with
+      | v :: d :: s :: r =>
+        match v.toNat?, parseBool d with
+        | some v, some d => some (.intlit v d (suffixArg s), r)
+        | _, _ => none
+      | _ => none
+    else if t == "flt" then
+      match rest with
+      | s :: r => some (.fltlit (suffixArg s), r)
+      | _ => none
+    else if t == "chr" then
+      match rest with
+      | p :: r => (charPrefixes.lookup p).map (fun p => (.charlit p, r))
+      | _ => none
+    else if t == "un" then
+      match rest with
+      | op :: r =>
+        match unOps.lookup op, parseExpr r with
+        | some op, some (e, r') => some (.un op e, r')
+        | _, _ => none
+      | _ => none
+    else if t == "bin" || t == "opasg" then
+      match rest with
+      | op :: r =>
+        match binOps.lookup op, parseExpr r with
+        | some op, some (a, r') =>
+          match parseExpr r' with
+          | some (b, r'') => some (if t == "bin" then .bin op a b else .opassign op a b, r'')
+          | none => none
+        | _, _ => none
+      | _ => none
+    else if t == "cond" then
+      match parseExpr rest with
+      | some (c, r1) =>
+        match parseExpr r1 with
+        | some (a, r2) =>
+          match parseExpr r2 with
+          | some (b, r3) => some (.cond c a b, r3)
+          | none => none
+        | none => none
+      | none => none
+    else if t == "cast" then
+      match parseTy rest with
+      | some (ty, r) => (parseExpr r).map (fun p => (.cast ty p.1, p.2))
+      | none => none
+    else if t == "sizeoft" then (parseTy rest).map (fun p => (.sizeofT p.1, p.2))
+    else if t == "asg" || t == "comma" || t == "idx" then
+      match parseExpr rest with
+      | some (a, r1) =>
+        match parseExpr r1 with
+        | some (b, r2) =>
+          some (if t == "asg" then .assign a b else if t == "comma" then .comma a b else .index a b, r2)
+        | none => none
+      | none => none
+    else if t == "call" then
+      match rest with
+      | n :: r =>
+        match n.toNat?, parseExpr r with
+        | some n, some (f, r') =>
+          let rec args (k : Nat) (ts : Toks) (acc : List Expr) : Option (List Expr × Toks) :=
+            match k with
+            | 0 => some (acc.reverse, ts)
+            | k + 1 =>
+              match parseExpr ts with
+              | some (e, ts') => args k ts' (e :: acc)
+              | none => none
+          (args n r' []).map (fun p => (.call f p.1, p.2))
+        | _, _ => none
+      | _ => none
+    else if t == "mem" then
+      match rest with
+      | arrow :: mq :: bits :: r =>
+        match parseBool arrow, mq.toNat?, parseW bits, parseTy r with
+        | some arrow, some mq, some bits, some (mty, r') =>
+          (parseExpr r').map (fun p => (.member arrow p.1 mty (Qual.ofNat mq) bits, p.2))
+        | _, _, _, _ => none
+      | _ => none
+    else none
+
+/-- model operand of `e` together with "every node satisfies its Spec predicate" -/
+partial def typeChk (tg : Target) (cs : Bool) : Expr → Option (Operand × Bool)
+  | e =>
+    let res := typeOf tg e
+    match res with
+    | none => none
+    | some o =>
+      let sub (x : Expr) : Option (Operand × Bool) := typeChk tg cs x
+      match e with
+      | .var .. | .rv .. => some (o, true)
+      | .intlit v d s =>
+        let ok := match Spec.parseSuffix s with
+          | some sfx => Spec.literalType cs v d sfx == (match o.ty with | .arith (.basic b) => some b | _ => none)
+          | none => false
+        some (o, ok)
+      | .fltlit s => some (o, (Spec.floatLiteralType s).map (fun b => Ty.arith (.basic b)) == some o.ty)
+      | .charlit p =>
+        let ts := Spec.targetSpecs.find? (·.name == tg.name)
+        some (o, ts.map (fun ts => Ty.arith (.basic (Spec.charConstType ts p))) == some o.ty)
+      | .un op x => (sub x).map (fun p => (o, p.2 && Spec.unaryOk cs op p.1 o))
+      | .bin op a b =>
+        match sub a, sub b with
+        | some p, some q => some (o, p.2 && q.2 && Spec.binopOk cs op p.1 q.1 o.ty)
+        | _, _ => none
+      | .cond c a b =>
+        match sub c, sub a, sub b with
+        | some r, some p, some q => some (o, r.2 && p.2 && q.2 && r.1.ty.isScalar && Spec.condOk cs p.1 q.1 o.ty)
+        | _, _, _ => none
+      | .cast t x => (sub x).map (fun p => (o, p.2 && Spec.castOk t p.1 o))
+      | .sizeofT t => some (o, !t.incomplete && !t.isFunc && o.ty == Spec.sizeofType)
+      | .assign a b =>
+        match sub a, sub b with
+        | some p, some q => some (o, p.2 && q.2 && Spec.assignOk p.1 o)
+        | _, _ => none
+      | .opassign op a b =>
+        match sub a, sub b with
+        | some p, some q =>
+          -- 6.5.16.2: `E1 op= E2` needs `E1 op E2` to be valid; type of the left operand
+          let valid := (binopType cs op { p.1 with decayedFrom := none } q.1).any
+            (fun t => Spec.binopOk cs op p.1 q.1 t)
+          some (o, p.2 && q.2 && valid && Spec.assignOk p.1 o)
+        | _, _ => none
+      | .comma a b =>
+        match sub a, sub b with
+        | some p, some q => some (o, p.2 && q.2 && Spec.commaOk q.1 o)
+        | _, _ => none
+      | .call f args =>
+        match sub f with
+        | some p => some (o, p.2 && (args.all (fun a => ((sub a).map (·.2)).getD false)) && Spec.callOk p.1 args.length o)
+        | none => none
+      | .member arrow x mty mq _ => (sub x).map (fun p => (o, p.2 && Spec.memberOk arrow p.1 mty mq o))
+      | .index a b =>
+        match sub a, sub b with
+        | some p, some q =>
+          -- 6.5.2.1: `E1[E2]` is `*((E1)+(E2))`
+          let sumOk := fun (t : Ty) => Spec.binopOk cs .add p.1 q.1 t &&
+            Spec.unaryOk cs .deref (rvalue t) o
+          let cand := match p.1.ty, q.1.ty with
+            | .ptr .., _ => some p.1.ty
+            | _, .ptr .. => some q.1.ty
+            | _, _ => none
+          some (o, p.2 && q.2 && (cand.map sumOk).getD false)
+        | _, _ => none
+
+structure St where
+  tg : Target
+
+def initSt : St := ⟨⟨"x86_64-sysv", .int, true⟩⟩
+
+def splitBar (ts : Toks) : List Toks :=
+  let rec go (ts : Toks) (cur : Toks) (acc : List Toks) : List Toks :=
+    match ts with
+    | [] => (cur.reverse :: acc).reverse
+    | "|" :: r => go r [] (cur.reverse :: acc)
+    | t :: r => go r (t :: cur) acc
+  go ts [] []
+
+def parseTyAll (ts : Toks) : Option Ty :=
+  match parseTy ts with
+  | some (t, []) => some t
+  | _ => none
+
+/-- `<w> <nullconst> T` -/
+def parseOperandSpec (ts : Toks) : Option Operand :=
+  match ts with
+  | w :: nc :: r =>
+    match parseW w, parseBool nc, parseTyAll r with
+    | some w, some nc, some t => some { ty := t, width := w, nullconst := nc }
+    | _, _, _ => none
+  | _ => none
+
+def showLit : LitResult → String
+  | .ty b => "ty " ++ basicName b
+  | .badSuffix => "badsuffix"
+  | .noType => "notype"
+
+def step (st : St) (line : String) : St × String :=
+  let sc := st.tg.signedchar
+  let toks := (line.trimAscii.toString.splitOn " ").filter (· ≠ "")
+  match toks with
+  | ["targ", name] =>
+    match findTarget name with
+    | some t => (⟨t⟩, "ok")
+    | none => (st, "unknown-target")
+  | ["promote", a, w] =>
+    match parseATy a, parseW w with
+    | some a, some w => (st, showATy (typepromote sc a w))
+    | _, _ => (st, "bad-op")
+  | ["commonreal", a, w, b, v] =>
+    match parseATy a, parseW w, parseATy b, parseW v with
+    | some a, some w, some b, some v =>
+      (st, match typecommonreal sc a w b v with | some r => showATy r | none => "fatal")
+    | _, _, _, _ => (st, "bad-op")
+  | ["hasint", a, v, s] =>
+    match parseATy a, v.toNat?, parseBool s with
+    | some a, some v, some s => (st, b01 (typehasint sc a v s))
+    | _, _, _ => (st, "bad-op")
+  | "compat" :: rest =>
+    match (splitBar rest).map parseTyAll with
+    | [some a, some b] => (st, b01 (typecompatible a b))
+    | _ => (st, "bad-op")
+  | "adjust" :: q :: rest =>
+    match q.toNat?, parseTyAll rest with
+    | some q, some t =>
+      (st, match typeadjust t (Qual.ofNat q) with
+           | some (t', q') => s!"{showTy t'} {q'.toNat}"
+           | none => "assert")
+    | _, _ => (st, "bad-op")
+  | ["inttype", v, d, s] =>
+    match v.toNat?, parseBool d with
+    | some v, some d => (st, showLit (inttype sc v d (suffixArg s)))
+    | _, _ => (st, "bad-op")
+  | ["enumbase", mn, mx] =>
+    match mn.toNat?, mx.toNat? with
+    | some mn, some mx => (st, match enumBase sc mn mx with | some b => basicName b | none => "none")
+    | _, _ => (st, "bad-op")
+  | "typeof" :: rest =>
+    match parseExpr rest with
+    | some (e, []) =>
+      (st, match typeChk st.tg sc e with
+           | some (o, ok) =>
+             s!"{showTy o.ty} q={o.qual.toNat} lv={b01 o.lvalue} w={showW o.width} nc={b01 o.nullconst} ok={b01 ok}"
+           | none => "error")
+    | _ => (st, "bad-op")
+  | ["Spromote", a, w] =>
+    match parseATy a, parseW w with
+    | some a, some w => (st, showATy (Spec.promote sc a w))
+    | _, _ => (st, "bad-op")
+  | ["Susual", a, w, b, v, r] =>
+    match parseATy a, parseW w, parseATy b, parseW v, parseATy r with
+    | some a, some w, some b, some v, some r => (st, b01 (Spec.usualArith sc a w b v r))
+    | _, _, _, _, _ => (st, "bad-op")
+  | ["Srange", a, v, s] =>
+    match parseATy a, v.toNat?, parseBool s with
+    | some a, some v, some s => (st, b01 (decide (Spec.inRange (Spec.range sc a) (Spec.decode v s))))
+    | _, _, _ => (st, "bad-op")
+  | ["Sliteral", v, d, s] =>
+    match v.toNat?, parseBool d with
+    | some v, some d =>
+      (st, match Spec.parseSuffix (suffixArg s) with
+           | none => "badsuffix"
+           | some sfx => match Spec.literalType sc v d sfx with | some b => basicName b | none => "notype")
+    | _, _ => (st, "bad-op")
+  | "Scompat" :: rest =>
+    match (splitBar rest).map parseTyAll with
+    | [some a, some b] => (st, b01 (Spec.compatible a b))
+    | _ => (st, "bad-op")
+  | "Sbinok" :: op :: rest =>
+    match binOps.lookup op, splitBar rest with
+    | some op, [l, r, t] =>
+      match parseOperandSpec l, parseOperandSpec r, parseTyAll t with
+      | some l, some r, some t => (st, b01 (Spec.binopOk sc op l r t))
+      | _, _, _ => (st, "bad-op")
+    | _, _ => (st, "bad-op")
+  | "Scondok" :: rest =>
+    match splitBar rest with
+    | [l, r, t] =>
+      match parseOperandSpec l, parseOperandSpec r, parseTyAll t with
+      | some l, some r, some t => (st, b01 (Spec.condOk sc l r t))
+      | _, _, _ => (st, "bad-op")
+    | _ => (st, "bad-op")
+  | ["Schar", p] =>
+    match charPrefixes.lookup p, Spec.targetSpecs.find? (·.name == st.tg.name) with
+    | some p, some ts => (st, basicName (Spec.charConstType ts p))
+    | _, _ => (st, "bad-op")
+  | ["Starget"] =>
+    match Spec.targetSpecs.find? (·.name == st.tg.name) with
+    | some ts => (st, s!"{b01 ts.charSigned} {basicName ts.wchar}")
+    | none => (st, "bad-op")
+  | _ => (st, "bad-op")
+
+partial def loop (stdin stdout : IO.FS.Stream) (st : St) : IO Unit := do
+  let line ← stdin.getLine
+  if line.isEmpty then
+    return ()
+  let (st', out) := step st line
+  stdout.putStrLn out
+  loop stdin stdout st'
+
 def main (_args : List String) : IO UInt32 := do
-  IO.eprintln "drv_c05: no model yet"
-  return 2
+  let stdin ← IO.getStdin
+  let stdout ← IO.getStdout
+  loop stdin stdout initSt
+  stdout.flush
+  return 0
